@@ -25,7 +25,7 @@ item = {"k": "connect", "a": path, "b": path_or_const, "flip": bool, "op": "conn
 path  = [step]; step = ["a", name] | ["i", k] | ["b", k] | ["s", lo, hi]
                         | ["vi", expr] | ["vb", expr]
 stmt  = ["assign", path, expr] | ["tmp", name, expr (, [more names])] | ["if", cond, [stmt], [stmt]]
-        | ["for", var, start, stop, step, [stmt]]
+        | ["for", var, start, stop, step, [stmt]] | ["call", fname (, [arg e...])]   (emit only: C09)
 expr  = ["const", w, v] | ["int", v] | ["rd", path, w] | ["tmpv", name, w] | ["lv", name]
         | ["free", name, w|None] | ["bin", op, a, b] | ["shift", op, a, b] | ["inv", a]
         | ["cmp", op, a, b] | ["ife", c, a, b] | ["zext"|"sext"|"trunc", a, w]
